@@ -15,6 +15,18 @@ NA = {
 }
 
 CHECKS = {
+    "C01": dict(
+        text="Seeded search over Newton histories of every item kind (solid bodies on 3D / plane-strain / axisymmetric / mixed fields, nearly-incompressible body, follower pressure, Cauchy-stress load, multi-point constraint and contact, point / body loads, form items; hyperelastic and history-dependent materials). At seeded iterations the exact K and -f Newton summed (multiplier, resize, link and cache protocol included) are taken at the solve= seam and K.d is compared with central differences of fun_items on cold forks at x +- h d (two step sizes; kink rule on the one-sided difference gap; step-size consistency rule), plus cache transparency (live == cold fork), symmetry of conservative items, the settled-state tangent of the condensed body, and the parallel knob under a simulated pool. Sampling, not proof.",
+        note="Trusted: finite-difference oracle with tolerance 2e-6 relative (calibrated 3 orders above the unchanged tree), fork builder, numpy/scipy. Real: all items, materials, assembly, Newton. Simulated: solver layer (inexact/scaled/flipped updates move the iterates to unusual states), einsumt pool.",
+        technique="deterministic simulation of Newton histories; finite-difference refinement check on cold forks at the states and through the cache protocol the history produces",
+        ref="DESIGN.md section 7 (C01)",
+    ),
+    "C17": dict(
+        text="Seeded operation sequences over a shared array pool: every tensor routine with operands of dimension 1..3 and broadcast batch axes, out in {None, fresh, dirty buffer left by an earlier operation}, parallel in {False, True} under a simulated einsumt pool (size 1..33, seeded job order, failing job), sym / determinant / full_output / mode flags. Each variant must equal the plain call, the plain call must equal numpy.linalg per batch item, operands must be byte-identical afterwards, a failing pool job must raise. Sampling, not proof.",
+        note="Trusted: numpy.linalg as definition. Real: felupe.math, einsumt chunking. Simulated: pool, buffer-reuse history. The 'equals its definition' clause for the plain variant is input sampling only (stated in evidence).",
+        technique="deterministic simulation: seeded operation/buffer-reuse histories under a simulated thread pool with worker faults, reference = numpy.linalg",
+        ref="DESIGN.md section 7 (C17)",
+    ),
     "C02": dict(
         text="Seeded search over schedules: (a) IntegralForm (Cartesian, plane-strain, axisymmetric incl. hoop terms, mixed block modes 1/2/3, absent blocks, uniform-grid broadcast, out= reuse with dirty buffers, values= pass-through) with parallel=True under a simulated einsumt pool (size 1..33 as a knob, seeded job order, failing job); (b) Form(...) weak forms (value/gradient/hessian spaces, linear/bilinear/mixed, sym flag) with parallel=True under a simulated thread scheduler (real threads parked and released one at a time at sys.monitoring LINE/STORE_SUBSCR yield points; fifo, lifo, round-robin and seeded random schedules; joins only wait for the joined thread) and a failing worker thread. Every result is compared with an independent naive assembler, with parallel=False and with the equivalent array form; a failing worker must surface as an exception. Sampling of schedules, not proof; races inside NumPy C code are not explored.",
         note="Trusted: numpy einsum, the generalised-basis reference assembler in fesim/refmodel.py (region.h/dhdX/dV arrays are inputs to both sides), scipy.sparse. Real: all of felupe.assembly, einsumt chunking. Simulated: thread scheduling, einsumt pool.",
